@@ -1012,10 +1012,11 @@ var anchorTable = map[string][][2]string{
 	"C12": {{"controller/config", "CreateWithConfig"}, {"controller/config", "Options.AddFlags"}, {"controller/services", "Services.withManager"}, {"utils/workqueue", "+WorkQueue.Start"}, {"haproxy/socket", "+buildProcTable"}, {"haproxy/socket", "+buildProcTable24"}, {"haproxy", "CreateInstance"}, {"haproxy", "newConnections"}, {"haproxy/socket", "+tokenizer.readField"}},
 	"C14": {{"controller/reconciler", "watchers.getHandlers"}, {"controller/reconciler", "hdlr.getSource"}, {"controller/reconciler", "createWatchers"}, {"controller/reconciler", "IngressReconciler.SetupWithManager"}, {"controller/reconciler", "+hdlr.Generic"}, {"controller/reconciler", "+hdlr.Create"}, {"controller/reconciler", "+hdlr.Update"}, {"controller/reconciler", "+hdlr.Delete"}},
 	"C13": {{"controller/config", "CreateWithConfig"}, {"controller/config", "Options.AddFlags"}, {"utils/workqueue", "New"}, {"controller/services", "Services.withManager"},
-		{"utils", "+queue.RunWithContext"}, {"utils", "+queue.Add"}, {"utils", "+queue.AddAfter"}, {"utils", "+queue.Notify"}, {"utils", "+queue.Remove"}, {"utils", "+NewRateLimitingQueue"}, {"utils", "+NewFailureRateLimitingQueue"}, {"utils", "+NewQueue"}, {"utils/workqueue", "+WorkQueue.Start"}, {"utils/workqueue", "WorkQueue.AddAfter"}, {"utils/workqueue", "WorkQueue.Remove"}, {"controller/services", "+svcLeader.onStartedLeading"}, {"controller/services", "+svcLeader.onStoppedLeading"}, {"controller/services", "svcLeader.addRunnable"}, {"controller/services", "svcLeader.Start"}, {"utils/workqueue", "ingressReconciler.Forget"}, {"utils/workqueue", "ingressReconciler.NumRequeues"}, {"utils/workqueue", "reloadHAProxy.Forget"}, {"utils/workqueue", "reloadHAProxy.NumRequeues"}},
+		{"utils", "+queue.RunWithContext"}, {"utils", "queue.Run"}, {"utils", "queue.Start"}, {"utils", "queue.Clear"}, {"utils", "+queue.Add"}, {"utils", "+queue.AddAfter"}, {"utils", "+queue.Notify"}, {"utils", "+queue.Remove"}, {"utils", "+NewRateLimitingQueue"}, {"utils", "+NewFailureRateLimitingQueue"}, {"utils", "+NewQueue"}, {"utils/workqueue", "+WorkQueue.Start"}, {"utils/workqueue", "WorkQueue.AddAfter"}, {"utils/workqueue", "WorkQueue.Remove"}, {"controller/services", "+svcLeader.onStartedLeading"}, {"controller/services", "+svcLeader.onStoppedLeading"}, {"controller/services", "svcLeader.addRunnable"}, {"controller/services", "svcLeader.Start"}, {"utils/workqueue", "ingressReconciler.Forget"}, {"utils/workqueue", "ingressReconciler.NumRequeues"}, {"utils/workqueue", "reloadHAProxy.Forget"}, {"utils/workqueue", "reloadHAProxy.NumRequeues"}},
 	"C17": {{"controller/config", "CreateWithConfig"}, {"controller/config", "Options.AddFlags"}, {"controller/services", "Services.withManager"}, {"utils/workqueue", "+WorkQueue.Start"}, {"utils/workqueue", "WorkQueue.AddAfter"}, {"utils/workqueue", "WorkQueue.Remove"}, {"controller/services", "+svcLeader.onStartedLeading"}, {"controller/services", "+svcLeader.onStoppedLeading"}, {"controller/services", "svcLeader.addRunnable"}, {"controller/services", "svcLeader.Start"}, {"utils/workqueue", "ExponentialFailureRateLimiter"}, {"controller/services", "+svcAcmeClient.Start"}, {"controller/services", "+Services.acmeCheck"}, {"controller/services", "initSvcAcmeClient"}, {"controller/services", "initSvcLeader"}, {"acme", "NewSigner"}, {"acme", "NewClient"}},
 	"C19": {{"controller/config", "CreateWithConfig"}, {"controller/config", "Options.AddFlags"}},
-	"C02": {{"haproxy", "CreateInstance"}, {"haproxy", "newConnections"}},
+	"C02": {{"haproxy", "CreateInstance"}, {"haproxy", "newConnections"}, {"controller/config", "CreateWithConfig"}, {"controller/config", "Options.AddFlags"}, {"controller/services", "Services.withManager"}},
+	"C05": {{"controller/config", "CreateWithConfig"}, {"controller/config", "Options.AddFlags"}, {"controller/services", "Services.withManager"}},
 	"C01": {{"controller/services", "createCacheFacade"}, {"controller/legacy", "createCache"}, {"converters/tracker", "NewTracker"}},
 	"C15": {{"controller/services", "createCacheFacade"}, {"controller/legacy", "createCache"}, {"controller/services", "+SSL.createFakeCertAndCA"}},
 	"C03": {{"controller/config", "CreateWithConfig"}},
@@ -1028,9 +1029,16 @@ var anchorTable = map[string][][2]string{
 func init() {
 	// the anchors of a layer's home property are anchors of the properties downstream of the layer
 	// (zzz_shared.go: an event that reaches no batch, a file that is not rewritten …)
+	own := map[string][][2]string{} // one level: what a home property got from its own upstream is not passed on
+	for p, as := range anchorTable {
+		own[p] = append([][2]string(nil), as...)
+	}
 	for _, ls := range layerShares {
 		for _, to := range ls.to {
-			for _, a := range anchorTable[ls.from] {
+			for _, a := range own[ls.from] {
+				if a[0] == "controller/config" || a[1] == "Services.withManager" {
+					continue // functions that wire everything: compared where a property names them itself
+				}
 				dup := false
 				for _, b := range anchorTable[to] {
 					dup = dup || (b[0] == a[0] && strings.TrimPrefix(b[1], "+") == strings.TrimPrefix(a[1], "+"))
